@@ -6,6 +6,7 @@ package main
 // in, so that the response script can be mostly valid for that protocol.
 
 import (
+	"encoding/base64"
 	"encoding/binary"
 	"encoding/hex"
 	"encoding/json"
@@ -14,7 +15,12 @@ import (
 	"net/http"
 	"strings"
 
+	"connectrpc.com/connect"
 	"connectrpc.com/vanguard"
+	"google.golang.org/genproto/googleapis/rpc/status"
+	"google.golang.org/protobuf/proto"
+	"google.golang.org/protobuf/types/known/anypb"
+	"google.golang.org/protobuf/types/known/wrapperspb"
 )
 
 func init() {
@@ -142,8 +148,10 @@ type clientPlan struct {
 // buildRequest fills sc.Req for the chosen method and client plan; returns the message values sent.
 func buildRequest(rng *rand.Rand, sc *Scenario, m methodInfo, cp clientPlan, hostile bool, e *Emitter) {
 	maxMsg := int(sc.Cfg.MaxMsg)
+	sc.gen.reqClean = !hostile
 	path := "/verif.v1.Svc/" + m.name
 	if rng.IntN(25) == 0 {
+		sc.gen.reqClean = false
 		path = pick(rng, []string{"/verif.v1.Svc/Nope", "/verif.v1.Other/Unary", "/", "/verif.v1.Svc/Unary/", "/verif.v1.Svc"})
 		e.Class("req:unknown-path")
 	}
@@ -163,11 +171,13 @@ func buildRequest(rng *rand.Rand, sc *Scenario, m methodInfo, cp clientPlan, hos
 		nmsg = rng.IntN(4)
 	} else if rng.IntN(12) == 0 {
 		nmsg = pick(rng, []int{0, 2})
+		sc.gen.reqClean = false
 	}
 	var values [][]byte
 	for i := 0; i < nmsg; i++ {
 		values = append(values, randValue(rng, maxMsg))
 	}
+	sc.gen.reqValues = values
 	accept := subset(rng, []string{"Z", "Y", "gzip", "bogus"}, false)
 	var body []byte
 	method := "POST"
@@ -238,6 +248,7 @@ func buildRequest(rng *rand.Rand, sc *Scenario, m methodInfo, cp clientPlan, hos
 		case 1:
 			if rng.IntN(3) == 0 {
 				sc.Req.ContentLength = int64(len(body)) + int64(rng.IntN(3)) - 1
+				sc.gen.reqClean = false
 			}
 		}
 	}
@@ -262,22 +273,26 @@ func buildRequest(rng *rand.Rand, sc *Scenario, m methodInfo, cp clientPlan, hos
 				sc.Req.BodyEnd = "unexpected"
 			}
 			e.Class("req:cut")
+			sc.gen.reqClean = false
 		}
 	case 1: // corrupt a flag byte
 		if len(body) >= 5 {
 			body[0] = byte(rng.IntN(256))
 			e.Class("req:flag")
+			sc.gen.reqClean = false
 		}
 	case 2: // misstate a length
 		if len(body) >= 5 {
 			n := binary.BigEndian.Uint32(body[1:5])
 			binary.BigEndian.PutUint32(body[1:5], n+uint32(rng.IntN(5))-2)
 			e.Class("req:length")
+			sc.gen.reqClean = false
 		}
 	case 3: // flip a payload byte (may corrupt hexa text or an RLE pair)
 		if len(body) > 5 {
 			body[5+rng.IntN(len(body)-5)] ^= byte(1 << rng.IntN(8))
 			e.Class("req:corrupt")
+			sc.gen.reqClean = false
 		}
 	}
 	sc.Req.Body = splitChunks(rng, body)
@@ -361,6 +376,14 @@ var trailerPool = [][2]string{{"X-Trailer", "t1"}, {"X-Trailer", "t2"}, {"X-Coun
 func buildResponse(rng *rand.Rand, sc *Scenario, m methodInfo, ss serverSide, e *Emitter) {
 	maxMsg := int(sc.Cfg.MaxMsg)
 	var script [][]string
+	sc.gen.respClean = true
+	readsAll := true
+	var respValues [][]byte
+	newValue := func() []byte {
+		v := randValue(rng, maxMsg)
+		respValues = append(respValues, v)
+		return v
+	}
 	// request consumption pattern
 	switch rng.IntN(4) {
 	case 0:
@@ -374,6 +397,7 @@ func buildResponse(rng *rand.Rand, sc *Scenario, m methodInfo, ss serverSide, e 
 	}
 	if rng.IntN(15) == 0 {
 		script = nil // does not read the request at all
+		readsAll = false
 		e.Class("resp:no-read")
 	}
 	sethdr := func(k, v string) { script = append(script, []string{"sethdr", hs(k), hs(v)}) }
@@ -383,6 +407,7 @@ func buildResponse(rng *rand.Rand, sc *Scenario, m methodInfo, ss serverSide, e 
 		nmsg = rng.IntN(4)
 	} else if rng.IntN(12) == 0 {
 		nmsg = pick(rng, []int{0, 2})
+		sc.gen.respClean = false
 	}
 	respComp := ""
 	var usable []string // the model cannot compute real gzip: never let the backend answer with it
@@ -396,6 +421,7 @@ func buildResponse(rng *rand.Rand, sc *Scenario, m methodInfo, ss serverSide, e 
 	}
 	if rng.IntN(20) == 0 {
 		respComp = pick(rng, []string{"Y", "Z", "bogus", "identity"})
+		sc.gen.respClean = false
 	}
 	var errCode uint32
 	errMsg := ""
@@ -403,27 +429,57 @@ func buildResponse(rng *rand.Rand, sc *Scenario, m methodInfo, ss serverSide, e 
 		errCode = uint32(1 + rng.IntN(16))
 		if rng.IntN(12) == 0 {
 			errCode = pick(rng, []uint32{17, 18, 99, 4294967295})
+			sc.gen.respClean = false
 		}
 		errMsg = pick(rng, errMsgPool)
 		sc.Relayed = append(sc.Relayed, hs(errMsg))
+	}
+	// typed error details (values chosen so that their base64 needs '+' and '/')
+	var details []*anypb.Any
+	if errCode != 0 && rng.IntN(3) == 0 {
+		for k := 1 + rng.IntN(2); k > 0; k-- {
+			d, _ := anypb.New(wrapperspb.Bytes(pick(rng, [][]byte{{0xff, 0xfe, 0xfd}, {0xfb, 0xef, 0xbe}, []byte("plain"), {0x3e, 0x3f, 0xff}})))
+			details = append(details, d)
+		}
+		e.Class("resp:error-details")
+	}
+	detailsBin := ""
+	if len(details) > 0 {
+		bin, _ := proto.Marshal(&status.Status{Code: int32(errCode), Message: errMsg, Details: details})
+		detailsBin = connect.EncodeBinaryHeader(bin)
+		if sc.StatusBin == nil {
+			sc.StatusBin = map[string]JSONEndEntry{}
+		}
+		sc.StatusBin[hs(detailsBin)] = JSONEndEntry{Valid: true, HasErr: true, Code: errCode, Msg: hs(errMsg), Details: len(details)}
+	}
+	jsonDetails := func() []map[string]any {
+		var out []map[string]any
+		for _, d := range details {
+			out = append(out, map[string]any{"type": strings.TrimPrefix(d.GetTypeUrl(), "type.googleapis.com/"),
+				"value": base64.RawStdEncoding.EncodeToString(d.GetValue())})
+		}
+		return out
 	}
 	var trailers [][2]string
 	for i := rng.IntN(3); i > 0; i-- {
 		trailers = append(trailers, pick(rng, trailerPool))
 	}
+	var respHeaders [][2]string
 	for i := rng.IntN(3); i > 0; i-- {
 		h := pick(rng, appHeaderPool)
 		addhdr("X-Resp-"+strings.TrimPrefix(h[0], "X-"), h[1])
+		respHeaders = append(respHeaders, [2]string{"X-Resp-" + strings.TrimPrefix(h[0], "X-"), h[1]})
 	}
 	var body []byte
 	codec := ss.codec
 	if rng.IntN(25) == 0 {
 		codec = pick(rng, []string{"raw", "hexa", "rev", "bogus"})
+		sc.gen.respClean = sc.gen.respClean && codec == ss.codec
 		e.Class("resp:wrong-codec")
 	}
 	frames := func() {
 		for i := 0; i < nmsg; i++ {
-			payload := encodeValue(ss.codec, randValue(rng, maxMsg))
+			payload := encodeValue(ss.codec, newValue())
 			flags := byte(0)
 			if respComp != "" && respComp != "identity" && respComp != "bogus" && rng.IntN(4) != 0 {
 				payload = compressValue(respComp, payload)
@@ -433,6 +489,8 @@ func buildResponse(rng *rand.Rand, sc *Scenario, m methodInfo, ss serverSide, e 
 		}
 	}
 	status := 200
+	endPayloadLen := 0 // size of the end-of-stream message / error body the backend writes (it is buffered too)
+	trailersOnlyUsed := false
 	bare := rng.IntN(14) == 0
 	switch ss.proto {
 	case "grpc", "grpcweb":
@@ -442,10 +500,14 @@ func buildResponse(rng *rand.Rand, sc *Scenario, m methodInfo, ss serverSide, e 
 			sethdr("Grpc-Encoding", respComp)
 		}
 		trailersOnly := errCode != 0 && rng.IntN(2) == 0
+		trailersOnlyUsed = trailersOnly
 		statusHdrs := func(prefix string) {
 			sethdr(prefix+"Grpc-Status", fmt.Sprint(errCode))
 			if errCode != 0 || rng.IntN(2) == 0 {
 				sethdr(prefix+"Grpc-Message", vanguard.VerifGRPCPercentEncode(errMsg))
+			}
+			if detailsBin != "" {
+				sethdr(prefix+"Grpc-Status-Details-Bin", detailsBin)
 			}
 			for _, t := range trailers {
 				addhdr(prefix+t[0], t[1])
@@ -462,6 +524,9 @@ func buildResponse(rng *rand.Rand, sc *Scenario, m methodInfo, ss serverSide, e 
 				declared := rng.IntN(2) == 0
 				if declared {
 					names := []string{"Grpc-Status", "Grpc-Message"}
+					if detailsBin != "" {
+						names = append(names, "Grpc-Status-Details-Bin")
+					}
 					for _, t := range trailers {
 						names = append(names, t[0])
 					}
@@ -485,6 +550,9 @@ func buildResponse(rng *rand.Rand, sc *Scenario, m methodInfo, ss serverSide, e 
 				if errCode != 0 {
 					th.Set("grpc-message", vanguard.VerifGRPCPercentEncode(errMsg))
 				}
+				if detailsBin != "" {
+					th.Set("grpc-status-details-bin", detailsBin)
+				}
 				for _, t := range trailers {
 					th.Add(strings.ToLower(t[0]), t[1])
 				}
@@ -492,6 +560,7 @@ func buildResponse(rng *rand.Rand, sc *Scenario, m methodInfo, ss serverSide, e 
 				_ = th.Write(&tb)
 				block := strings.ToLower(tb.String()) // grpc-web peers send lower-case names
 				_ = block
+				endPayloadLen = len(tb.String())
 				body = append(body, envelope(0x80, []byte(tb.String()))...)
 				script = append(script, []string{"status", "200"})
 				script = append(script, writeOps(rng, body)...)
@@ -510,7 +579,11 @@ func buildResponse(rng *rand.Rand, sc *Scenario, m methodInfo, ss serverSide, e 
 			if int(errCode) < len(codeNames) {
 				name = codeNames[errCode]
 			}
-			end["error"] = map[string]any{"code": name, "message": errMsg}
+			errObj := map[string]any{"code": name, "message": errMsg}
+			if len(details) > 0 {
+				errObj["details"] = jsonDetails()
+			}
+			end["error"] = errObj
 			entry.HasErr, entry.Code, entry.Msg = true, errCode, hs(errMsg)
 		}
 		if len(trailers) > 0 {
@@ -523,6 +596,7 @@ func buildResponse(rng *rand.Rand, sc *Scenario, m methodInfo, ss serverSide, e 
 		payload, _ := json.Marshal(end)
 		if rng.IntN(30) == 0 {
 			payload = []byte(`{"error": nope`)
+			sc.gen.respClean = false
 			e.Class("resp:bad-end-json")
 		}
 		fillJSONEntry(&entry, payload)
@@ -530,6 +604,7 @@ func buildResponse(rng *rand.Rand, sc *Scenario, m methodInfo, ss serverSide, e 
 			sc.JSONEnd = map[string]JSONEndEntry{}
 		}
 		sc.JSONEnd[hx(payload)] = entry
+		endPayloadLen = len(payload)
 		body = append(body, envelope(2, payload)...)
 		script = append(script, []string{"status", "200"})
 		script = append(script, writeOps(rng, body)...)
@@ -547,9 +622,14 @@ func buildResponse(rng *rand.Rand, sc *Scenario, m methodInfo, ss serverSide, e 
 			if int(errCode) < len(codeNames) {
 				name = codeNames[errCode]
 			}
-			payload, _ := json.Marshal(map[string]any{"code": name, "message": errMsg})
+			errObj := map[string]any{"code": name, "message": errMsg}
+			if len(details) > 0 {
+				errObj["details"] = jsonDetails()
+			}
+			payload, _ := json.Marshal(errObj)
 			if rng.IntN(20) == 0 {
 				payload = []byte("<html>oops</html>")
+				sc.gen.respClean = false
 			}
 			entry := JSONEndEntry{}
 			fillJSONErrEntry(&entry, payload)
@@ -557,11 +637,12 @@ func buildResponse(rng *rand.Rand, sc *Scenario, m methodInfo, ss serverSide, e 
 				sc.JSONErr = map[string]JSONEndEntry{}
 			}
 			sc.JSONErr[hx(payload)] = entry
+			endPayloadLen = len(payload)
 			body = payload
 		} else {
 			sethdr("Content-Type", "application/"+codec)
 			for i := 0; i < nmsg; i++ {
-				payload := encodeValue(ss.codec, randValue(rng, maxMsg))
+				payload := encodeValue(ss.codec, newValue())
 				if respComp != "" && respComp != "identity" && respComp != "bogus" {
 					payload = compressValue(respComp, payload)
 				}
@@ -577,6 +658,7 @@ func buildResponse(rng *rand.Rand, sc *Scenario, m methodInfo, ss serverSide, e 
 		case 1:
 			if rng.IntN(4) == 0 {
 				sethdr("Content-Length", fmt.Sprint(len(body)+rng.IntN(3)-1))
+				sc.gen.respClean = false
 			}
 		}
 		script = append(script, []string{"status", fmt.Sprint(status)})
@@ -589,6 +671,7 @@ func buildResponse(rng *rand.Rand, sc *Scenario, m methodInfo, ss serverSide, e 
 		script = append(script, []string{"sethdr", hs("Content-Type"), hs("text/plain")},
 			[]string{"status", fmt.Sprint(pick(rng, []int{400, 401, 403, 404, 429, 500, 502, 503, 504, 418, 302, 204}))},
 			[]string{"write", hs("upstream says no")})
+		sc.gen.respClean = false
 		e.Class("resp:bare-http")
 	}
 	// response-side faults
@@ -597,10 +680,12 @@ func buildResponse(rng *rand.Rand, sc *Scenario, m methodInfo, ss serverSide, e 
 		if len(script) > 1 {
 			script = script[:1+rng.IntN(len(script)-1)]
 			e.Class("resp:early-return")
+			sc.gen.respClean = false
 		}
 	case 1: // write after the end
 		script = append(script, []string{"write", hx(envelope(0, []byte("late")))})
 		e.Class("resp:late-write")
+			sc.gen.respClean = false
 	case 2: // corrupt a written byte
 		for i := range script {
 			if script[i][0] == "write" && script[i][1] != "-" {
@@ -608,12 +693,41 @@ func buildResponse(rng *rand.Rand, sc *Scenario, m methodInfo, ss serverSide, e 
 				b[rng.IntN(len(b))] ^= byte(1 << rng.IntN(8))
 				script[i][1] = hx(b)
 				e.Class("resp:corrupt-byte")
+			sc.gen.respClean = false
 				break
 			}
 		}
 	}
 	sc.Script = script
 	rebuildTables(sc, ss)
+	if ss.proto == "other" {
+		sc.gen.respClean = false
+	}
+	if sc.gen.reqClean && sc.gen.respClean {
+		ex := &Expectation{ErrCode: errCode, ErrMsg: hs(errMsg), Details: len(details), ReadsAll: readsAll, SizesSafe: endPayloadLen <= maxMsg, TrailersInHeaders: trailersOnlyUsed}
+		if errCode != 0 && (ss.proto == "connect-unary" || trailersOnlyUsed) {
+			respValues = nil // an error answered in the headers / by a unary backend carries no message
+		}
+		for _, v := range sc.gen.reqValues {
+			ex.ReqValues = append(ex.ReqValues, hx(v))
+			ex.SizesSafe = ex.SizesSafe && 4*len(v)+2 <= maxMsg
+		}
+		for _, v := range respValues {
+			ex.RespValues = append(ex.RespValues, hx(v))
+			ex.SizesSafe = ex.SizesSafe && 4*len(v)+2 <= maxMsg
+		}
+		for _, t := range trailers {
+			ex.Trailers = append(ex.Trailers, []string{hs(t[0]), hs(t[1])})
+		}
+		for _, h := range respHeaders {
+			ex.RespHeaders = append(ex.RespHeaders, []string{hs(h[0]), hs(h[1])})
+		}
+		sc.Expect = ex
+		e.Class("expect:clean")
+		if ex.SizesSafe {
+			e.Class("expect:clean+sizes-safe")
+		}
+	}
 }
 
 // rebuildTables derives the JSON tables from what the final script really writes (faults may
@@ -626,6 +740,22 @@ func rebuildTables(sc *Scenario, ss serverSide) {
 		}
 	}
 	sc.JSONEnd, sc.JSONErr = map[string]JSONEndEntry{}, map[string]JSONEndEntry{}
+	sc.StatusBin = map[string]JSONEndEntry{}
+	addBin := func(text string) {
+		entry := JSONEndEntry{}
+		if raw, err := connect.DecodeBinaryHeader(text); err == nil {
+			var st status.Status
+			if err := proto.Unmarshal(raw, &st); err == nil {
+				entry = JSONEndEntry{Valid: true, HasErr: true, Code: uint32(st.GetCode()), Msg: hs(st.GetMessage()), Details: len(st.GetDetails())}
+			}
+		}
+		sc.StatusBin[hs(text)] = entry
+	}
+	for _, op := range sc.Script {
+		if (op[0] == "sethdr" || op[0] == "addhdr") && strings.HasSuffix(strings.ToLower(unhs(op[1])), "grpc-status-details-bin") {
+			addBin(unhs(op[2]))
+		}
+	}
 	var e JSONEndEntry
 	fillJSONErrEntry(&e, body)
 	sc.JSONErr[hx(body)] = e
@@ -638,6 +768,13 @@ func rebuildTables(sc *Scenario, ss serverSide) {
 			var e JSONEndEntry
 			fillJSONEntry(&e, b[5:5+n])
 			sc.JSONEnd[hx(b[5:5+n])] = e
+		}
+		if b[0]&0x80 != 0 {
+			for _, line := range strings.Split(string(b[5:5+n]), "\r\n") {
+				if k, v, ok := strings.Cut(line, ":"); ok && strings.EqualFold(strings.TrimSpace(k), "grpc-status-details-bin") {
+					addBin(strings.TrimSpace(v))
+				}
+			}
 		}
 		b = b[5+n:]
 	}
@@ -695,7 +832,7 @@ func genScenario(e *Emitter, rng *rand.Rand) *Scenario {
 	}
 	sc.Cfg.Codecs = subset(rng, []string{"raw", "hexa", "rev"}, true)
 	sc.Cfg.Compress = subset(rng, []string{"Z", "Y"}, false)
-	sc.Cfg.MaxMsg = pick(rng, []uint32{8, 16, 40, 1000})
+	sc.Cfg.MaxMsg = pick(rng, []uint32{8, 16, 40, 1000, 1000, 1000})
 	sc.Cfg.MaxGetURL = pick(rng, []uint32{40, 70, 90, 200})
 	sc.Cfg.Unknown = rng.IntN(3) == 0
 	m := pick(rng, methods)
